@@ -470,6 +470,22 @@ func (b *builder) importItem(a atom) *item {
 	return imp
 }
 
+// importChain makes `@import "u1";` whose target, at depth 1 (or 2 if a.Deep: u1 = `@import "u2";`),
+// holds `inner`, which is built once the chain's URLs are allocated.
+func (b *builder) importChain(a atom, inner func(where string) []*item) *item {
+	top := &item{Kind: "import", URL: b.url()}
+	where := b.curName + "/" + top.URL
+	last := top
+	if a.Deep {
+		mid := &item{Kind: "import", URL: b.url()}
+		top.Items = []*item{mid}
+		where += "/" + mid.URL
+		last = mid
+	}
+	last.Items = inner(where)
+	return top
+}
+
 func (b *builder) nested(a atom, parentSet int) (*bodyItem, int) {
 	var ss []sel
 	set := 0
@@ -516,6 +532,29 @@ func (b *builder) add(a atom) {
 	case "importhere":
 		b.ensureCur()
 		*b.cur = append(*b.cur, wrap(a, b.importItem(a)))
+	case "importinto": // like importnew, and the following in-sheet instructions go INTO the imported sheet
+		b.newAuthor(false, "")
+		imp := &item{Kind: "import", Media: splitMedia(a.Media), URL: b.url()}
+		name := b.curName + "/" + imp.URL
+		imp.Items = []*item{b.rule(a, name)}
+		*b.cur = append(*b.cur, imp)
+		b.cur, b.curName = &imp.Items, name
+	case "impmedia": // `@media M { rule }` inside an imported sheet (depth 1, or 2 if Deep)
+		b.newAuthor(false, "")
+		m := a.Media
+		if m == "" {
+			m = "all"
+		}
+		*b.cur = append(*b.cur, b.importChain(a, func(where string) []*item {
+			return []*item{{Kind: "media", Media: splitMedia(m), Items: []*item{b.rule(a, where)}}}
+		}))
+	case "impcond": // a conditioned `@import "u" M;` inside an imported sheet (depth 1, or 2 if Deep)
+		b.newAuthor(false, "")
+		*b.cur = append(*b.cur, b.importChain(a, func(where string) []*item {
+			cond := &item{Kind: "import", Media: splitMedia(a.Media), URL: b.url()}
+			cond.Items = []*item{b.rule(a, where+"/"+cond.URL)}
+			return []*item{cond}
+		}))
 	case "media":
 		b.ensureCur()
 		m := a.Media
@@ -836,6 +875,14 @@ func fullAlphabet() []atom {
 			out = append(out, atom{K: "media", Imp: imp, Sels: []int{s}, Media: "print"})
 			out = append(out, atom{K: "media", Imp: imp, Sels: []int{s}, Media: "screen"})
 		}
+		// media conditions INSIDE imported sheets (the device media type must reach every import depth)
+		for _, m := range []string{"print", "screen"} {
+			for _, deep := range []bool{false, true} {
+				out = append(out, atom{K: "impmedia", Imp: imp, Sels: []int{3}, Media: m, Deep: deep})
+				out = append(out, atom{K: "impcond", Imp: imp, Sels: []int{3}, Media: m, Deep: deep})
+			}
+		}
+		out = append(out, atom{K: "importinto", Imp: imp, Sels: []int{3}})
 		for f := 0; f < 4; f++ {
 			out = append(out, atom{K: "nest", Imp: imp, NF: []int{f}})
 		}
@@ -862,17 +909,19 @@ func reducedAlphabet() []atom {
 		out = append(out, atom{K: "ua", Imp: imp, Sels: []int{3}})
 		out = append(out, atom{K: "importhere", Imp: imp, Sels: []int{3}})
 		out = append(out, atom{K: "media", Imp: imp, Sels: []int{3}, Media: "screen"})
+		out = append(out, atom{K: "impmedia", Imp: imp, Sels: []int{3}, Media: "screen", Deep: true})
 		out = append(out, atom{K: "nest", Imp: imp, NF: []int{0}})
 		out = append(out, atom{K: "nest", Imp: imp, NF: []int{2}})
 		out = append(out, atom{K: "decl", Imp: imp})
 		out = append(out, atom{K: "attr", Imp: imp})
 	}
-	out = append(out, atom{K: "hint"}, atom{K: "ph", Sels: []int{0}})
+	out = append(out, atom{K: "hint"}, atom{K: "ph", Sels: []int{0}}, atom{K: "importinto", Sels: []int{2}},
+		atom{K: "impcond", Sels: []int{3}, Media: "print"})
 	return out
 }
 
 func randAtom(r *rng.R) atom {
-	kinds := []string{"ua", "user", "usernew", "style", "link", "same", "same", "importnew", "importhere", "media",
+	kinds := []string{"ua", "user", "usernew", "style", "link", "same", "same", "importnew", "importhere", "media", "importinto", "impmedia", "impcond",
 		"decl", "decl", "nest", "nest", "nest2", "ndecl", "attr", "hint", "ph", "page", "junk"}
 	a := atom{K: rng.Pick(r, kinds...), Imp: r.P(1, 3)}
 	n := 1
@@ -894,7 +943,10 @@ func randAtom(r *rng.R) atom {
 		a.NF = append(a.NF, r.Intn(len(nForms)))
 	}
 	switch a.K {
-	case "style", "link", "importnew", "importhere":
+	case "impmedia", "impcond":
+		a.Media = rng.Pick(r, mediaChoices[1:]...)
+		a.Deep = r.P(1, 2)
+	case "style", "link", "importnew", "importhere", "importinto":
 		if r.P(1, 3) {
 			a.Media = rng.Pick(r, mediaChoices...)
 		}
@@ -920,6 +972,21 @@ type runner struct {
 	fonts text.FontConfiguration
 	n     int
 	seed  uint64
+}
+
+// mediaDependent: the instruction carries a media condition or opens an imported sheet for the
+// following ones; tuples with such an instruction are run on both devices.
+func mediaDependent(atoms []atom) bool {
+	for _, a := range atoms {
+		switch a.K {
+		case "media", "impmedia", "impcond", "importinto":
+			return true
+		}
+		if a.Media != "" || a.Wrap != "" {
+			return true
+		}
+	}
+	return false
 }
 
 func atomsText(atoms []atom) string {
@@ -1059,10 +1126,11 @@ func Run(tier string, seed uint64, modelPath, repo, replay string, out *res.Resu
 		out.NotChecked = append(out.NotChecked, "layout observable (cannot read html5_ua.css: "+err.Error()+")")
 	}
 	rn := &runner{m: m, out: out, fonts: fonts, seed: seed}
-	out.Rule = "documents = tuples of placement instructions (UA/user/PH sheet rule, <style>, <link>, rule in the current sheet, @import new/in place, @media, " +
+	out.Rule = "documents = tuples of placement instructions (UA/user/PH sheet rule, <style>, <link>, rule in the current sheet, @import new/in place/entered, @media, " +
+		"@media and conditioned @import INSIDE imported sheets at depth 1 and 2, " +
 		"declaration or nested rule (& / compound / descendant / child) appended to the last rule, depth-2 nesting, style attribute, bgcolor hint) x importance x selector; " +
-		"every declaration has its own colour. quick: ALL ordered pairs of the full alphabet (print, hints on; pairs with a hint also hints off) + 5000 random k-tuples (k<=6, " +
-		"selector groups, 21 selectors, 11 nested forms, media lists, @media wrapping, nested @import, @page/junk statements, device print/screen, hints on/off); " +
+		"every declaration has its own colour. quick: ALL ordered pairs of the full alphabet (device print, hints on; pairs with a media condition or an entered import also on device screen; pairs with a hint also hints off) + 5000 random k-tuples (k<=6, " +
+		"selector groups, 21 selectors, 11 nested forms, media lists, @media wrapping, nested @import, @page/junk statements, device print or screen with equal probability, hints on/off); " +
 		"thorough: + all triples of a reduced alphabet + 100000 random. non-trivial = at least two declarations apply to the probe (spec occurrence list >= 2); distinct by instruction tuple + device + hints"
 
 	if replay != "" {
@@ -1077,6 +1145,11 @@ func Run(tier string, seed uint64, modelPath, repo, replay string, out *res.Resu
 		for _, b := range full {
 			if err := rn.one("pairs", "print", true, []atom{a, b}); err != nil {
 				return err
+			}
+			if mediaDependent([]atom{a, b}) {
+				if err := rn.one("pairs", "screen", true, []atom{a, b}); err != nil {
+					return err
+				}
 			}
 			if a.K == "hint" || b.K == "hint" || a.K == "ph" || b.K == "ph" {
 				if err := rn.one("pairs", "print", false, []atom{a, b}); err != nil {
@@ -1096,6 +1169,11 @@ func Run(tier string, seed uint64, modelPath, repo, replay string, out *res.Resu
 					if err := rn.one("triples", "print", true, []atom{a, b, c}); err != nil {
 						return err
 					}
+					if mediaDependent([]atom{a, b, c}) {
+						if err := rn.one("triples", "screen", true, []atom{a, b, c}); err != nil {
+							return err
+						}
+					}
 				}
 			}
 		}
@@ -1110,7 +1188,7 @@ func Run(tier string, seed uint64, modelPath, repo, replay string, out *res.Resu
 		for j := range atoms {
 			atoms[j] = randAtom(c)
 		}
-		if err := rn.one("random", rng.Pick(c, "print", "print", "screen"), c.P(2, 3), atoms); err != nil {
+		if err := rn.one("random", rng.Pick(c, "print", "screen"), c.P(2, 3), atoms); err != nil {
 			return err
 		}
 	}
